@@ -36,7 +36,7 @@ Section U.
   Theorem pwd_usable w :
     s_ended (fw_s w) = false -> s_logged (fw_s w) = true ->
     fw_codes (fstep' w (probe_ev "pwd")) = [code "257"] /\
-    fw_info (fstep' w (probe_ev "pwd")) = quoted (path_str (s_cwd (fw_s w))) /\
+    fw_info (fstep' w (probe_ev "pwd")) = quoted (dbl_quote (path_str (s_cwd (fw_s w)))) /\
     fw_faults (fstep' w (probe_ev "pwd")) = fw_faults w /\
     fw_s (fstep' w (probe_ev "pwd")) = set_rest (fw_s w) 0%Z.
   Proof.
@@ -77,7 +77,7 @@ Section U.
     raised w0 (fstep' w0 e) ->
     let w1 := fstep' w0 e in
     (fw_codes (fstep' w1 (probe_ev "pwd")) = [code "257"] /\
-     fw_info (fstep' w1 (probe_ev "pwd")) = quoted (path_str (s_cwd (fw_s w0)))) /\
+     fw_info (fstep' w1 (probe_ev "pwd")) = quoted (dbl_quote (path_str (s_cwd (fw_s w0))))) /\
     (fw_codes (fstep' w1 (probe_ev "pasv")) = [code "227"] /\
      s_passive (fw_s (fstep' w1 (probe_ev "pasv"))) = true /\
      s_ended (fw_s (fstep' w1 (probe_ev "pasv"))) = false).
